@@ -86,7 +86,7 @@ func zeroModel(t *types.Named) (value, bool) {
 
 func isModelObject(v value) bool {
 	switch v.(type) {
-	case timeVal, *syncMap, *syncMutex, *syncWaitGroup, *syncOnce, *bytesBuffer, *regexpObj, *bufioReader, *stringsReader, reflectValue, *opaqueObj, *xtextPrinter:
+	case timeVal, *syncMap, *syncMutex, *syncWaitGroup, *syncOnce, *bytesBuffer, *regexpObj, *bufioReader, *stringsReader, reflectValue, *opaqueObj, *xtextPrinter, *replacerObj:
 		return true
 	}
 	return false
@@ -119,33 +119,40 @@ func (i *interpreter) externalGlobal(g *ssa.Global) *value {
 }
 
 // orderForRange returns the entries in the order a `range` will visit them.
-// With map-order exploration the order is a symbolic (n-ary) choice.
+// With map-order exploration one iteration-order policy is chosen per path (an n-ary decision at
+// the first map range) and applied to every map range of that path: insertion order, reversed,
+// rotated by one, adjacent pairs swapped. (Exploring an independent order at every range multiplies
+// paths by n! per range; a global policy still exposes any dependence on iteration order that shows
+// under one of these four orders.)
 func orderForRange(es []*mapEntry) []*mapEntry {
 	if !cx.MapOrder || len(es) < 2 {
 		return es
 	}
-	n := len(es)
-	if n <= 3 {
-		// all n! orders
-		perms := permutations(n)
-		p := perms[cx.Choose(len(perms), nil)]
-		out := make([]*mapEntry, n)
-		for i, j := range p {
-			out[i] = es[j]
+	if cx.mapPolicy < 0 {
+		cx.mapPolicy = cx.Choose(4, nil)
+		if cx.choices == nil {
+			cx.choices = map[string]string{}
 		}
-		return out
+		cx.choices["map-order-policy#0"] = fmt.Sprint(cx.mapPolicy)
 	}
-	// rotations and the reversal
-	k := cx.Choose(n+1, nil)
+	n := len(es)
 	out := make([]*mapEntry, n)
-	if k == n {
+	switch cx.mapPolicy {
+	case 0:
+		return es
+	case 1:
 		for i := range es {
 			out[i] = es[n-1-i]
 		}
-		return out
-	}
-	for i := range es {
-		out[i] = es[(i+k)%n]
+	case 2:
+		for i := range es {
+			out[i] = es[(i+1)%n]
+		}
+	default:
+		copy(out, es)
+		for i := 0; i+1 < n; i += 2 {
+			out[i], out[i+1] = out[i+1], out[i]
+		}
 	}
 	return out
 }
